@@ -733,19 +733,21 @@ func TestC11(t *testing.T) {
 		"refcodec (BEP 3/6/9/10/11) encoding; the captured bytes are fed to the real PeerReader whole, one byte per Read, under every 1-cut and every 2-cut of the cut lattice " +
 		"(all positions for streams <= full bytes, else all positions within r of a structural point plus a stride grid), and - slow peer - with the read deadline expiring once or twice inside the payload of every piece message (cuts at payload start+18, +19, middle, end-1, end); sequences = every ordered tuple of representatives up to the stated depth, " +
 		"plus big-frame/small-frame reuse sequences; handshake = every reserved-bit pattern x every 1-cut and 2-cut of the 68 bytes through readHandshake1/2 and btconn.Accept. " +
+		"upload counter under a failing transport: one piece frame of payload {1, 2, 1000, 16384} bytes, the conn accepting every prefix length around the 13-byte header and at the ends, then failing with net.OpError / a plain error. " +
 		"distinct = distinct (kind, frame length) classes that passed through the writer."
 	rep.Assumptions = []string{
 		"piece blocks are at most 16384 bytes (the client refuses larger requests before they reach the writer; a larger one would overrun the writer's array)",
 		"the writer's queue policy is taken as documented: each operation is written before the next one is queued (so choke never cancels a queued piece), a repeated piece request is answered with reject",
 		"which zero-valued optional keys an extension dictionary omits is the client's choice (presence rule in refcodec/peerext.go); key names, order, value syntax and framing are prescribed",
 		"request messages longer than 16 KiB and extended messages carrying a remote peer's ids are written and compared on the wire, but the reader is not required to deliver them",
-		"transport never fails and never blocks (write errors, deadlines and rate-limit buckets are not part of C11)",
+		"apart from the failing-write part (upload counter) the transport never fails and never blocks (deadlines and rate-limit buckets are not part of C11)",
 		"a panic inside the writer's own goroutines would abort the run (exit 2) instead of being reported per case",
 	}
 	col := &collector{m: map[string]*vrec{}}
 	ids := learnExtIDs(t, log)
 	rep.Extra["advertised_ext_ids"] = fmt.Sprintf("ut_metadata=%d ut_pex=%d", ids.meta, ids.pex)
 	ck := &checker{col: col, ids: ids, log: log, maxMsgSize: 30 << 20}
+	nFault := checkWriteFaults(t, ck, log, thorough)
 
 	// ---- build the case list (simplest first)
 	var cases []*wcase
@@ -955,6 +957,7 @@ func TestC11(t *testing.T) {
 	rep.Extra["reader_runs_cut1"] = ck.nCut1
 	rep.Extra["reader_runs_cut2"] = ck.nCut2
 	rep.Extra["reader_runs_stalled_block"] = ck.nStall
+	rep.Extra["writer_runs_with_failing_transport"] = nFault
 	rep.Extra["reader_messages_delivered"] = ck.nReaderMsgs
 	rep.Extra["piece_frames_on_wire"] = ck.nPieceFrames
 	rep.Extra["piece_payload_bytes_on_wire"] = ck.nPieceBytes
